@@ -121,6 +121,12 @@ def scenarios(rng, tier):
         rng.shuffle(sends)
         for i in range(0, len(sends), 12):
             yield {'kind': 'send', 'phase': phase, 'ops': sends[i:i + 12]}
+    # a SUCCESSOR circuit is running (reset_circuit() after the end, new blocks, started): an ExtEvent aimed at a
+    # block of the FINISHED circuit must still be refused -- "the circuit" of the property is the destination's
+    for kind in STOP_KINDS:
+        sends = [send(dest='sblockObj', source=src, value=val) for src in ('<absent>', 'src', '_ext_x') for val in VALUES[:3]]
+        rng.shuffle(sends)
+        yield {'kind': 'send', 'phase': f'finished:{kind}', 'successor': True, 'ops': sends[:6]}
     # constructor arguments
     for phase in ('notStarted', 'running', 'finished:abort'):
         ops = [send(dest=d, etype=e, csrc=c) for d in DESTS for e in ('ev', '', 5) for c in CTOR_SOURCES]
@@ -320,8 +326,31 @@ def run_send(scn):
                 life_line('ext life-settle')
             else:
                 raise AssertionError(step)
+        succ = None
+        if scn.get('successor'):
+            # the finished circuit is replaced by a new, running one
+            assert simtask is not None
+            try:
+                await simtask
+            except BaseException:
+                pass
+            edzed.reset_circuit()
+            succ = edzed.get_circuit()
+            Probe('probe_b', log=[])
+            succ_task = asyncio.create_task(succ.run_forever())
+            await succ.wait_init()
+            assert succ.is_ready() and not circuit.is_ready()
         for s in scn['ops']:
             do_send(s)
+        if succ is not None:
+            try:
+                await succ.shutdown()
+            except Exception:
+                pass
+            try:
+                await succ_task
+            except BaseException:
+                pass
         if simtask is not None:
             if not simtask.done():
                 try:
@@ -388,7 +417,7 @@ def run_send(scn):
 
     vtime.run(main)
     ndel = sum(1 for r in sends if r.get('result') == 'ret')
-    tags = [f"phase={scn['phase']}"] + sorted({f"send={r.get('result', 'ctor-' + r['ctor'])}" for r in sends})
+    tags = [f"phase={scn['phase']}"] + (['successor-circuit-running'] if scn.get('successor') else []) + sorted({f"send={r.get('result', 'ctor-' + r['ctor'])}" for r in sends})
     return {'lines': lines, 'trace': trace, 'tags': tags, 'nontrivial': ndel > 0 or len(sends) > 0,
             'sends': sends, 'life': life, 'internal': [], 'names': []}
 
